@@ -28,7 +28,7 @@ UINT32_LE_SELF = [I(4, "LE", "<self>")]
 BLOCK_HEADER = [I(4, "LE", "version"), B(32, "prev_block", rev=True), B(32, "merkle_root", rev=True), I(4, "LE", "timestamp"), B(4, "bits"), B(4, "nonce")]
 
 # message header: magic(4) command(12, zero padded) length(4 LE) checksum(4) payload
-ENVELOPE = [B(4, "magic"), B(12, "command"), I(4, "LE", "payload_length"), B(4, "checksum"), B(None, "payload")]
+ENVELOPE = [B(4, "magic"), B(12, "command"), I(4, "LE", None), B(4, None), B(None, "payload")]
 
 # BIP32: 4 version | 1 depth | 4 parent fingerprint | 4 child number BE | 32 chain code | 33 key data  (= 78 bytes)
 XPRV = [B(4, "version"), I(1, "LE", "depth"), B(4, "parent_fingerprint"), I(4, "BE", "child_number"), B(32, "chain_code"), I(33, "BE", "private_key")]
